@@ -387,6 +387,9 @@ type Tracer struct {
 	SawCreate       bool
 	NSelfdestruct   int      // SELFDESTRUCT instructions executed (also in frames that revert later)
 	SelfBeneficiary bool     // some SELFDESTRUCT named the destructing contract itself as beneficiary (its balance is burnt)
+	GasIncreased    string   // non-empty: inside one frame the gas available rose from one instruction to the next (what happened)
+	lastGas         map[int]uint64
+	lastOp          map[int]vm.OpCode
 	BurnAtEnd       *big.Int // sum of the balances that accounts flagged suicided hold when the execution ends (deleted with them)
 }
 
@@ -397,6 +400,21 @@ func (t *Tracer) CaptureStart(from common.Address, to common.Address, create boo
 	return nil
 }
 func (t *Tracer) CaptureState(env *vm.EVM, pc uint64, op vm.OpCode, gas, cost uint64, memory *vm.Memory, stack *vm.Stack, contract *vm.Contract, depth int, err error) error {
+	// gas conservation inside a frame: every instruction costs something and a callee cannot hand back more than it was
+	// given (plus the stipend the caller paid for), so the gas seen at one depth never rises
+	if t.lastGas == nil {
+		t.lastGas, t.lastOp = map[int]uint64{}, map[int]vm.OpCode{}
+	}
+	if prev, ok := t.lastGas[depth]; ok && gas > prev && t.GasIncreased == "" {
+		t.GasIncreased = fmt.Sprintf("depth %d pc %d: gas %d after %s, %d before it", depth, pc, gas, t.lastOp[depth], prev)
+	}
+	for d := range t.lastGas {
+		if d > depth {
+			delete(t.lastGas, d)
+			delete(t.lastOp, d)
+		}
+	}
+	t.lastGas[depth], t.lastOp[depth] = gas, op
 	if op == vm.SELFDESTRUCT {
 		t.SawSelfdestruct = true
 		t.NSelfdestruct++
